@@ -83,6 +83,18 @@ example :
       = some true := by decide
 
 
+/-- **finding F18 (open, KNOWN_FINDINGS.json)**: the accounting above covers the resumption that pushes the unit back into
+its pool.  A *directed* resumption (`ABT_self_resume_yield_to`, `resume_suspend_to`, `resume_exit_to`) by a ULT of another
+stream is also a trace of the code and of this model: unit 5 of pool 1 suspends on stream 1, is resumed and run on stream 0,
+and after the decrement it is running while pool 1 holds nothing and counts nothing — the scheduler of stream 1 may now
+conclude "drained".  The witness is replayed against the real code by corpus/findings/f18_resume_yield_to_foreign_unit.c. -/
+example :
+    (machine.run init
+      [.create 5 1, .push 1 5, .pop 1 1 5, .setSt 5 .running, .run 1 5, .userStart 5, .cb 1 5 .suspend, .incB 5 1,
+       .setSt 5 .blocked, .resume 5, .setSt 5 .running, .run 0 5, .decB 5 1]).map
+      (fun s => decide (s.loc 5 = .running 0 ∧ s.pool 5 = 1 ∧ s.nb 1 = 0 ∧ s.owedL = [])) = some true := by decide
+
+
 /-! ## widths of the counters modelled as unbounded numbers (generated from the headers on every run) -/
 /-- `num_blocked`: Model.Sched / Model.Stop use Int / Nat is 4 bytes wide in this tree: the unbounded model agrees with the C field below 2^31 -/
 example : ArgoVerif.Gen.Consts.bytesPoolNumBlocked = 4 := by decide
